@@ -108,3 +108,14 @@ pub fn panic_sig(msg: &str) -> String {
         .collect();
     format!("{}|{}", file, head)
 }
+
+static WORKDIR: std::sync::OnceLock<PathBuf> = std::sync::OnceLock::new();
+
+pub fn set_workdir(p: &Path) {
+    let _ = WORKDIR.set(p.to_path_buf());
+}
+
+/// scratch directory of this run (removed by the supervisor); falls back to the system temp dir
+pub fn workdir() -> PathBuf {
+    WORKDIR.get().cloned().unwrap_or_else(std::env::temp_dir)
+}
